@@ -101,16 +101,25 @@ def path_text(op: dict) -> str:
 
 
 def spec_of(ops: list[dict]) -> dict:
+    """operations with the same path text form ONE path item (methods in the order given); their path-level
+    parameters must be the same list and are written once, at path-item level; a parameter with "ref" is written
+    as a $ref to components.parameters"""
     paths: dict[str, Any] = {}
+    comp_params: dict[str, Any] = {}
     for op in ops:
         item = paths.setdefault(path_text(op), {})
         def pnode(p: dict) -> dict:
             d = {"name": p["name"], "in": p["in"], "schema": schema_of(p)}
             if p["required"]:
                 d["required"] = True
+            if p.get("ref"):
+                key = "P_" + "".join(c if c.isalnum() else "_" for c in f"{p['in']}_{p['name']}_{p['ty']}_{int(p['array'])}_{int(p['required'])}")
+                comp_params[key] = d
+                return {"$ref": "#/components/parameters/" + key}
             return d
         plevel = [pnode(p) for p in op["params"] if p["level"] == "path"]
         if plevel:
+            assert item.get("parameters", plevel) == plevel, "operations of one path item must share the path-level list"
             item["parameters"] = plevel
         node: dict[str, Any] = {"operationId": op["id"], "tags": [op["tag"]],
                                 "responses": {"200": {"description": "ok"}}}
@@ -122,8 +131,18 @@ def spec_of(ops: list[dict]) -> dict:
             if op["body_required"]:
                 rb["required"] = True
             node["requestBody"] = rb
+        assert op["method"] not in item, "one operation per method and path item"
         item[op["method"]] = node
-    return base_spec(paths, COMPONENTS)
+    doc = base_spec(paths, COMPONENTS)
+    if comp_params:
+        doc["components"]["parameters"] = comp_params
+    return doc
+
+
+def item_of(ops: list[dict], i: int) -> tuple[list[dict], int]:
+    """the operations of ops[i]'s path item, in document order, and the position of ops[i] among them"""
+    sib = [j for j, o in enumerate(ops) if path_text(o) == path_text(ops[i])]
+    return [ops[j] for j in sib], sib.index(i)
 
 
 def level_params(op: dict) -> tuple[list[dict], list[dict]]:
@@ -364,10 +383,58 @@ def cross_ops() -> list[dict]:
     return out
 
 
+def gen_item(rng, idx: int) -> list[dict]:
+    """a path item with 2-4 methods that share path-level parameters of EVERY location (some via $ref to
+    components.parameters); every operation has its own operation-level parameters (one may override a
+    path-level declaration) and its own request body"""
+    def prm(name, loc, ty="str", required=False, array=False, level="path", **kw):
+        return {"name": name, "in": loc, "required": required, "ty": ty, "array": array, "level": level, **kw}
+    v1, v2 = rng.sample(V_NAMES, 2)
+    two = rng.random() < 0.5
+    path = [["lit", f"/o{idx}/"], ["var", v1]] + ([["lit", "/"], ["var", v2]] if two else []) + \
+           ([["lit", "/tail"]] if rng.random() < 0.3 else [])
+    shared = [prm(v1, "path", rng.choice(["str", "int", "date"]), True, ref=rng.random() < 0.4),
+              prm(rng.choice(Q_NAMES[:5]), "query", rng.choice(["str", "int", "bool"]), rng.random() < 0.4,
+                  array=rng.random() < 0.3, ref=rng.random() < 0.5),
+              prm(rng.choice(H_NAMES), "header", "str", rng.random() < 0.4, ref=rng.random() < 0.5),
+              prm(rng.choice(C_NAMES), "cookie", "str", False, ref=rng.random() < 0.5)]
+    if rng.random() < 0.5:
+        shared.append(prm(rng.choice(Q_NAMES[5:8]), "query", "str", False))
+    rng.shuffle(shared)
+    ops = []
+    for j, method in enumerate(rng.sample(METHODS, rng.choice([2, 3, 4]))):
+        own = [prm(v2, "path", rng.choice(["str", "int"]), True, level="op")] if two else []
+        for n in rng.sample(Q_NAMES[8:], rng.choice([0, 1, 2])):
+            own.append(prm(n, "query", rng.choice(["str", "int", "date"]), rng.random() < 0.3, level="op"))
+        if rng.random() < 0.3:          # an operation-level declaration overriding a path-level one
+            q = next(p for p in shared if p["in"] == "query")
+            own.append(prm(q["name"], "query", "str", not q["required"], level="op"))
+        body = rng.choice([[], [], [J], [FORM], [J, MP]])
+        ops.append({"id": f"op{idx + j}", "tag": "alpha", "method": method, "path": path,
+                    "params": [dict(p) for p in shared] + own, "body": body,
+                    "body_required": bool(body) and rng.random() < 0.5})
+    return ops
+
+
+def cross_item() -> list[dict]:
+    """deterministic: one path item, three methods, path-level parameters of every location (two via $ref)"""
+    def prm(name, loc, ty="str", required=False, level="path", **kw):
+        return {"name": name, "in": loc, "required": required, "ty": ty, "array": False, "level": level, **kw}
+    shared = [prm("id", "path", "int", True), prm("trace", "query", ref=True), prm("X-Tenant", "header", required=True, ref=True),
+              prm("sid", "cookie")]
+    path = [["lit", "/xi/"], ["var", "id"]]
+    return [{"id": "xiget", "tag": "alpha", "method": "get", "path": path, "params": [dict(p) for p in shared],
+             "body": [], "body_required": False},
+            {"id": "xiput", "tag": "alpha", "method": "put", "path": path,
+             "params": [dict(p) for p in shared] + [prm("limit", "query", "int", level="op")], "body": [J], "body_required": True},
+            {"id": "xidelete", "tag": "alpha", "method": "delete", "path": path,
+             "params": [dict(p) for p in shared] + [prm("trace", "query", "int", True, level="op")], "body": [], "body_required": False}]
+
+
 def poisoned(op: dict) -> bool:
     """conservative: some python name may occur twice in the generated signature (SyntaxError kills the whole
     endpoints package, so such an operation gets a client of its own)"""
-    names = [mn(mn(p["name"])) for p in op["params"]]
+    names = [mn(mn(p["name"])) for p in ordered_params(op)]
     names.append("self")
     if len(op["body"]) > 1:
         names += sorted({multi_body_var(ct) for ct in op["body"]}) + ["content_type"]
@@ -776,8 +843,11 @@ def c_obs(obs: dict) -> str:
 
 def c_case(case: dict) -> str:
     op, a = case["input"]["op"], case["input"]["args"]
-    pl, ol = level_params(op)
-    return (f"(({name_table(op)}, ({c_params(pl)}, {c_params(ol)}), {c_op(op, merged=False)}, "
+    item = case["input"].get("item") or [op]
+    k = case["input"].get("k", 0)
+    pl = level_params(item[0])[0]
+    its = clist(f"({c_op(o, merged=False)}, {c_params(level_params(o)[1])})" for o in item)
+    return (f"(({name_table(op)}, {{| pi_params := {c_params(pl)}; pi_ops := {its} |}}, {k}%nat, "
             f"{c_args(a, case['leaf'])}), {c_obs(case['obs'])})")
 
 
@@ -787,8 +857,11 @@ def run_batch(batches: list[tuple[list[dict], list[tuple[int, dict]]]]) -> list[
     for ops, calls in batches:
         obs, leaf, _err = run_spec(ops, calls)
         for (i, a), o in zip(calls, obs):
-            cases.append({"input": {"op": ops[i], "args": a}, "obs": o, "leaf": leaf,
-                          "oracle_fail": oracle(ops[i], a, o)})
+            item, k = item_of(ops, i)
+            inp = {"op": ops[i], "args": a}
+            if len(item) > 1:            # the whole path item: the case depends on the operation's siblings
+                inp.update({"item": item, "k": k})
+            cases.append({"input": inp, "obs": o, "leaf": leaf, "oracle_fail": oracle(ops[i], a, o)})
     return cases
 
 
@@ -799,7 +872,8 @@ def solo(op: dict) -> dict:
 def main(chk: Check, replay: dict | None = None) -> int:
     if replay is not None:
         inp = replay["input"]
-        cases = run_batch([([solo(inp["op"])], [(0, inp["args"])])])
+        item = [solo(o) for o in inp.get("item") or [inp["op"]]]
+        cases = run_batch([(item, [(inp.get("k", 0), inp["args"])])])
         print(json.dumps({"obs": cases[0]["obs"], "oracle_fail": cases[0]["oracle_fail"]}, indent=1))
         if cases[0]["oracle_fail"]:
             print(f"VIOLATION property=C04 replay=(replayed) : {cases[0]['oracle_fail']}")
@@ -813,9 +887,12 @@ def main(chk: Check, replay: dict | None = None) -> int:
     batches: list[tuple[list[dict], list[tuple[int, dict]]]] = []
     # corpus first (each witness in a client of its own)
     for c in load_corpus("C04"):
-        batches.append(([solo(c["input"]["op"])], [(0, c["input"]["args"])]))
+        inp = c["input"]
+        batches.append(([solo(o) for o in inp.get("item") or [inp["op"]]], [(inp.get("k", 0), inp["args"])]))
     xops = cross_ops()
     batches.append((xops, [(i, a) for i, op in enumerate(xops) for a in assignments(rng, op)]))
+    xitem = cross_item()
+    batches.append((xitem, [(i, a) for i, op in enumerate(xitem) for a in assignments(rng, op)]))
     n_specs = 60 if chk.thorough else 14
     n_collide = 30 if chk.thorough else 8
     idx = 0
@@ -831,6 +908,14 @@ def main(chk: Check, replay: dict | None = None) -> int:
         calls = [(i, a) for i, op in enumerate(ops)
                  for a in assignments(rng, op, cap=None if chk.thorough else 24)]
         batches.append((ops, calls))
+    for s in range(8 if chk.thorough else 2):          # path items with several methods sharing path-level parameters
+        ops = []
+        for _ in range(3):
+            it = gen_item(rng, idx)
+            idx += len(it)
+            if not any(poisoned(o) for o in it):
+                ops += it
+        batches.append((ops, [(i, a) for i, op in enumerate(ops) for a in assignments(rng, op, cap=16)]))
     for s in range(n_collide):
         op = gen_op(rng, idx, "collide")
         idx += 1
